@@ -3,8 +3,16 @@ package props
 import (
 	"encoding/hex"
 	"fmt"
+	"net/netip"
+	"strings"
 
 	"harness/core"
+	"harness/env"
+	"harness/refnet"
+
+	dns "github.com/irai/packet/handlers/dns_naming"
+	"github.com/irai/packet/verifshim/vfuel"
+	"golang.org/x/net/dns/dnsmessage"
 )
 
 // C10 beyond the session histories: the handlers that retain state decoded from packets are run differentially as
@@ -43,9 +51,44 @@ func c10DNS(e *c17Env, payload []byte, qname, want string) string {
 	return ""
 }
 
+// c10MDNS processes one mDNS response of a host-less sender and renders the entries the handler returned, reading them
+// after the receive buffer was scribbled (or not).
+func c10MDNS(e *c17Env, payload []byte, scribbleIt bool) (out string) {
+	defer func() {
+		if r := recover(); r != nil {
+			out = fmt.Sprintf("panic: %v", r)
+			e.s = nil
+		}
+	}()
+	vfuel.Set(200_000)
+	h := dns.VerifNew(e.session())
+	src := netip.MustParseAddr("169.254.7.7") // self assigned address outside the home LAN: no host entry
+	raw := refnet.Eth(env.McastMAC, env.MAC3, 0x0800, refnet.IP4(src, netip.MustParseAddr("224.0.0.251"), 17, refnet.UDP(5353, 5353, payload), refnet.IP4Opt{}))
+	buf := append([]byte(nil), raw...)
+	frame, err := e.session().Parse(buf)
+	if err != nil {
+		return "parse: " + err.Error()
+	}
+	v4, v6, err := h.ProcessMDNS(frame)
+	if scribbleIt {
+		scribble(buf)
+	}
+	if err != nil {
+		return "error"
+	}
+	var parts []string
+	for _, x := range v4 {
+		parts = append(parts, fmt.Sprintf("4:%s=%v@%s", x.NameEntry.Name, x.Addr.IP, x.Addr.MAC))
+	}
+	for _, x := range v6 {
+		parts = append(parts, fmt.Sprintf("6:%s=%v@%s", x.NameEntry.Name, x.Addr.IP, x.Addr.MAC))
+	}
+	return strings.Join(parts, " ")
+}
+
 func c10Run(c *core.Ctx, args []string) {
 	c.Res.Level = "model_checking"
-	c.Res.Rule = "differential execution of every explored history: (1) the session histories of C04 (depth and seeds as C04) with one shared receive buffer that is scribbled after every call (quick: pattern 0xa5; thorough: 0x00 and 0xa5) against private immutable buffers - notifications, emitted frames and table snapshots must be identical step by step; (2) the DHCP histories of C11/C12 the same way - replies and lease table snapshots; (3) every router advertisement of the C14 router-learning enumeration and (4) every DNS response of the C17 enumeration, each processed twice (buffer scribbled after ProcessPacket/ProcessDNS returned, and untouched) - the learned router / DNS entry must not differ. distinct = distinct states + distinct frames"
+	c.Res.Rule = "differential execution of every explored history: (1) the session histories of C04 (depth and seeds as C04) with one shared receive buffer that is scribbled after every call (quick: pattern 0xa5; thorough: 0x00 and 0xa5) against private immutable buffers - notifications, emitted frames and table snapshots must be identical step by step; (2) the DHCP histories of C11/C12 the same way - replies and lease table snapshots; (3) every router advertisement of the C14 router-learning enumeration and (4) every DNS response of the C17 enumeration, each processed twice (buffer scribbled after ProcessPacket/ProcessDNS returned, and untouched) - the learned router / DNS entry must not differ; the same for pairs of advertisements of one router and for mDNS responses of a sender the session does not track. distinct = distinct states + distinct frames"
 	c.Res.Assumptions = sessAssumptions()
 	switch c.Job {
 	case "dhcp":
@@ -59,6 +102,21 @@ func c10Run(c *core.Ctx, args []string) {
 		differential = true
 		c17DNSSweep(c, &c17Env{}, func() func() bool { unit := 0; return func() bool { unit++; return c.Mine(unit - 1) } }())
 		differential = false
+		for _, host := range []string{"tv", "office-pc"} {
+			for sec := 0; sec < 3; sec++ {
+				rrs := []c17RR{{"txt", "x._airplay._tcp.local", "model=AppleTV"}, {"a", host + ".local", "169.254.7.7"}, {"aaaa", host + ".local", "fe80::77"}}
+				payload, err := buildDNS("", dnsmessage.TypeA, rrs, []int{0, sec, sec}, true, true)
+				if err != nil {
+					continue
+				}
+				c.Count("evaluations", 1)
+				e := &c17Env{}
+				a, b := c10MDNS(e, payload, true), c10MDNS(e, payload, false)
+				if a != b {
+					c.Violate("alias|mdns-entries", fmt.Sprintf("mDNS response of a sender without host entry (host %s, section %d): entries read after the receive buffer was scribbled {%s} differ from {%s}", host, sec, a, b), c17Replay{Kind: "mdns10", Hex: hex.EncodeToString(payload)})
+				}
+			}
+		}
 		c.Count("transitions", c.Res.Counters["evaluations"])
 	default:
 		sessExplore(c, "alias")
@@ -78,6 +136,7 @@ func init() {
 			var k struct {
 				Kind  string `json:"kind"`
 				Frame string `json:"frame"`
+				Pre   string `json:"pre"`
 				Hex   string `json:"hex"`
 				QName string `json:"qname"`
 				Want  string `json:"want"`
@@ -86,10 +145,29 @@ func init() {
 			switch k.Kind {
 			case "dhcp":
 				return dhcpReplayer(data)
+			case "ra2":
+				f, _ := hex.DecodeString(k.Frame)
+				p, _ := hex.DecodeString(k.Pre)
+				scribbleOff = false
+				a := c14CheckSeq(&c14State{}, [][]byte{p}, f)
+				scribbleOff = true
+				b := c14CheckSeq(&c14State{}, [][]byte{p}, f)
+				scribbleOff = false
+				if a != b {
+					return "alias|router-learning: second advertisement"
+				}
+				return ""
 			case "ra":
 				f, _ := hex.DecodeString(k.Frame)
 				if v := c10RA(&c14State{}, f); v != "" {
 					return "alias|router-learning: " + v
+				}
+				return ""
+			case "mdns10":
+				b, _ := hex.DecodeString(k.Hex)
+				e := &c17Env{}
+				if a, bb := c10MDNS(e, b, true), c10MDNS(e, b, false); a != bb {
+					return "alias|mdns-entries"
 				}
 				return ""
 			case "dns":
